@@ -17,6 +17,10 @@ from esrally.driver import driver
 log.post_configure_actor_logging = lambda: None
 
 
+# the real collaborators, kept for harnesses that run in the same worker process after the stubs were installed
+REAL = {"AsyncIoAdapter": driver.AsyncIoAdapter, "register_default_runners": driver.runner.register_default_runners}
+
+
 def install_driver_stubs():
     driver.load_local_config = lambda c: c
     driver.load_track = lambda *a, **k: None
